@@ -554,6 +554,50 @@ TRACE_POINTS = [  # slow reaction in a fast-flushed tank: the product stays many
 TOL_TRACE = 1e-9  # relative, per component (measured on the pinned tree: < 1e-14)
 
 
+NANO_POINTS = [  # every concentration at the nanomolar level (fast second-order steps of trace species); kf * conc * t of order one
+    ("binary_irrev", dict(kf=1000000000, prod=0, major="3/1000000000", minor="2/1000000000"), 1),
+    ("binary_irrev", dict(kf=1000000000, prod="1/1000000000", major="5/10000000000", minor="1/10000000000"), 2),
+    ("binary_rev", dict(kf=1000000000, kb="1/2", prod=0, major="3/1000000000", minor="2/1000000000"), 1),
+    ("pseudo_irrev", dict(kf=1000000000, prod=0, major="3/1000000000", minor="2/1000000000"), 1),
+    ("pseudo_rev", dict(kf=1000000000, kb="1/2", prod=0, major="3/1000000000", minor="2/1000000000"), 1),
+    ("dimerization_irrev", dict(kf=1000000000, initial_C="3/1000000000", t0=0), 1),
+]
+
+
+def _check_nano(res):
+    """the batch closed forms with every concentration at the nanomolar level: each float backend gives the value of the 60-digit symbolic
+    form to a relative 1e-9 (no absolute floor: an absolute comparison sees nothing at 1e-9)"""
+    import mpmath
+    import numpy as np
+
+    mpmath.mp.dps = DPS
+    for ipt, (name, pt, tv) in enumerate(NANO_POINTS):
+        S = _symbolic(name)
+        p = {q: Fr(pt[q]) for q in MECH[name]["params"]}
+        pm, rows = _eval_symbolic(S, name, p, [Fr(tv)])
+        ref = [float(x) for x in rows[0][0]]
+        pf = {q: _fl(p[q]) for q in MECH[name]["params"]}
+        t0 = p[MECH[name]["tstart"]] if MECH[name]["tstart"] else Fr(0)
+        for sp_name in (LT_SPELLINGS if MECH[name]["has_backend"] else ("float", "numpy[array t]")):
+            res.states += 1
+            res.transitions += 1
+            res.evaluations += 1
+            res.nontrivial += 1
+            kw = _num_spelling_kw(sp_name)
+            try:
+                tval = np.array([_fl(t0 + Fr(tv))] * 2) if sp_name.endswith("[array t]") else _fl(t0 + Fr(tv))
+                o = _call(name, tval, pf, kw)
+                o = o if isinstance(o, tuple) else (o,)
+                got = [float(np.broadcast_to(np.asarray(x, dtype=float), (2,))[0]) for x in o]
+            except Exception as ex:
+                got = _exc_tag(ex)
+            ok = not isinstance(got, str) and all(abs(g - r) <= TOL_TRACE * abs(r) for g, r in zip(got, ref))
+            res.outcomes["nanomolar:%s" % ("agrees" if ok else "DIFFERS")] += 1
+            if not ok:
+                res.violation("C17|%s|%s|nanomolar-value-differs-from-symbolic-form" % (name, _family(sp_name)), "%s(t=%s, %s) [%s] = %r, symbolic form %r (relative tolerance %g)" % (
+                    name, tv, _pstr(p), sp_name, got, ref, TOL_TRACE), dict(layer="NM", point=ipt, spelling=sp_name), got, ref)
+
+
 def _check_trace(res, S):
     """unary_irrev_cstr where the product is a trace: every float backend gives each component to a relative 1e-9 of the 60-digit
     symbolic value (a mixed absolute/relative comparison would not see the product at all)"""
@@ -623,6 +667,7 @@ def run_chunk(chunk, tier):
         if name == "unary_irrev_cstr":
             _check_trace(res, S)
             _check_identity(res)
+            _check_nano(res)
         res.sample(dict(layer="LT", fn=name, times=[_s(x) for x in LT_TIMES], points=len(LT_POINTS[name])), limit=1)
         return res
     _, name, i, j = chunk
@@ -676,9 +721,12 @@ def _simplify_chunk(res, name):
 # ------------------------------------------------------------------------------------------------ replay
 def replay(case):
     res = Result()
-    if case.get("layer") in ("TR", "ID"):
+    if case.get("layer") in ("TR", "ID", "NM"):
         sub = Result()
-        _check_trace(sub, _symbolic("unary_irrev_cstr")) if case["layer"] == "TR" else _check_identity(sub)
+        if case["layer"] == "NM":
+            _check_nano(sub)
+        else:
+            _check_trace(sub, _symbolic("unary_irrev_cstr")) if case["layer"] == "TR" else _check_identity(sub)
         res.violations = [v for v in sub.violations if all(v["case"].get(k) == case.get(k) for k in ("point", "spelling", "fn"))]
         if res.violations:
             v = res.violations[0]
